@@ -137,6 +137,10 @@ func (d *mapDriver) read(key []byte, skip, viaLoad bool) {
 			return
 		}
 
+		if kind == rkHit && e.atBoundary(now) && !ok {
+			return // exactly at the expiry instant
+		}
+
 		if kind == rkHit {
 			d.c.Assert(ok && valEq(d.be.Generic(), v, e.val), "load-hit",
 				"Load(%s) = (%v,%v), model has fresh value %v", keyName(key), v, ok, e.val)
@@ -170,6 +174,15 @@ func (d *mapDriver) read(key []byte, skip, viaLoad bool) {
 		d.forget(key)
 
 		return
+	}
+
+	if e != nil && r.Expired {
+		e.observeExpiry(r.ExpAt.UnixNano())
+	}
+
+	if e.atBoundary(now) && kind == rkHit && r.Expired {
+		kind = rkExpired // the read happened exactly at the expiry instant: either outcome is allowed
+		d.c.Class("read-exactly-at-expiry-instant")
 	}
 
 	switch kind {
@@ -296,6 +309,7 @@ func (d *mapDriver) compareAll() {
 		d.c.Assert(ok, "walk-phantom", "Walk reports key %s that the model does not hold", keyName([]byte(r.key)))
 		d.c.Assert(valEq(d.be.Generic(), r.val, e.val), "walk-value", "Walk: key %s has value %v, model %v",
 			keyName([]byte(r.key)), r.val, e.val)
+		e.observeExpiry(r.e)
 		d.c.Assert(r.e == e.e, "walk-expiry", "Walk: key %s expires at %d, model %d", keyName([]byte(r.key)), r.e, e.e)
 	}
 
